@@ -232,8 +232,11 @@ def search(ctx, corr, broken):
     for c in dg._DeviceCommand._devicecommands:
         a, i = getattr(c, "_addr", None), getattr(c, "_instance", None)
         if isinstance(a, int):
-            for lo in (0, 1, 0xFF):
+            for lo in range(256):
                 cand.append((24, ((a & 0xFF) << 16) | (((i if isinstance(i, int) else 0) & 0xFF) << 8) | lo, 0))
+            if not isinstance(i, int):
+                for mid in range(256):
+                    cand.append((24, ((a & 0xFF) << 16) | (mid << 8) | (mid ^ 0x5A), 0))
     for bits, d, dt in cand:
         ans = cc.cmd_canon(lambda: command.from_frame(ForwardFrame(bits, d), devicetype=dt))
         if ans.startswith("RAISED") or ("|ok %d %d|" % (bits, d)) not in ans or "STR-RAISED" in ans:
